@@ -14,6 +14,8 @@ _harn = [
    'selftest_config': U(2, [0, 1]),
    'selftests': [{'define': 'VS_SELFTEST_OOB', 'kind': 'memory'}, {'define': 'VS_SELFTEST_UAF', 'kind': 'memory'}, {'define': 'VS_SELFTEST_UNINIT', 'kind': 'memory'}, {'define': 'VS_SELFTEST_DOUBLEFREE', 'kind': 'memory'}]},
 ]
+import json as _json
+_claimed = set(k for k, v in _json.load(open(os.path.join(os.path.dirname(_here), 'claims.json'))).items() if v.get('claimed'))
 _covered = []
 # how many queries of each other property are re-run here (quick, thorough)
 _PER = {'quick': 3, 'thorough': 12}
@@ -24,6 +26,7 @@ for _f in sorted(glob.glob(os.path.join(_here, '*.py'))):
     try: _spec.loader.exec_module(_m)
     except Exception as e: continue
     for _pid, _c in _m.CHECKS.items():
+        if _pid not in _claimed: continue      # only harnesses of properties whose own check is claimed (i.e. stable)
         for _h in _c['harnesses']:
             def pick(tier, _h=_h):
                 cfgs = [c for c in _h['configs'].get(tier, _h['configs']['quick']) if not c.get('_heavy')]
